@@ -116,6 +116,19 @@ def run(ctx):
             case = perturb(rng, case, info, modes=["unused", "invalid-vector", "duplicate", "rc-duplicate",
                                                     "palindrome", "missing", "invalid-module", "same-object"])
             ctx.note("refusal:" + case["mode"])
+        if rng.random() < 0.25 and "mparts" in info:
+            # an ambiguous base call (N) inside an overhang: the generic classes still accept the record
+            j = rng.randrange(len(case["mods"]))
+            m = case["mods"][j]
+            md = info["mparts"][m["oid"] - 1] if 1 <= m["oid"] <= len(info["mparts"]) else None
+            if md is not None:
+                o = md[rng.choice(["o5", "o3"])]
+                wdu = m["word"].upper()
+                p = (wdu + wdu).find(o)
+                if 0 <= p and len(o) >= 1:
+                    q = (p + rng.randrange(len(o))) % len(wdu)
+                    m["word"] = m["word"][:q] + "N" + m["word"][q + 1:]
+                    ctx.note("N-in-overhang")
         for e in [case["vector"]] + case["mods"]:
             if rng.random() < 0.2:
                 e["word"] = malformed_for(rng, asm.cls_by_name(e["cls"]), kits)
